@@ -12,7 +12,7 @@ from common import hx, scratch_dir, unhx
 
 BLOCK = 32768
 
-NAME_PARTS = [b"a", b"b", b"a.", b"a-", b"a0", b"ab", b"A", b" ", b"\n", b"\xff", b"\xc3\xa9", b"\x80", b"x y", b".hidden", b"~", b"-", b"0", b"sub", b"Sub", b"build", b"BUILD", b"node_modules", b"t\x01"]
+NAME_PARTS = [b"a", b"b", b"a.", b"a-", b"a0", b"ab", b"A", b" ", b"\n", b"\xff", b"\xc3\xa9", b"\x80", b"x y", b".hidden", b"~", b"-", b"0", b"sub", b"Sub", b"build", b"BUILD", b"node_modules", b"t\x01", b"top", b"top"]  # "top" is also the name of every scratch root
 
 
 def gen_name(rng, used):
@@ -117,6 +117,16 @@ def scratch_tree(spec, tag="tree"):
         yield root
     finally:
         force_rmtree(base)
+
+
+@contextlib.contextmanager
+def cwd_guard():
+    """restore the working directory on exit"""
+    cwd = os.getcwd()
+    try:
+        yield
+    finally:
+        os.chdir(cwd)
 
 
 @contextlib.contextmanager
